@@ -31,6 +31,13 @@ ACTIONS = [
     ('lmove-bad', [[b'lmove', K, K2, b'left', b'sideways']]), ('restore-replace', [[b'set', b'src', b'p'], [b'dump', b'src']]),
     ('rpoplpush-self', [[b'rpoplpush', K, K]]), ('smove-self', [[b'smove', K, K, b'a']]), ('getset', [[b'getset', K, b'orig']]),
     ('setnx-existing', [[b'setnx', K, b'zzz']]), ('expire-missing', [[b'expire', b'nokey', b'10']]), ('pexpire-now', [[b'pexpire', K, b'0']]),
+    ('sort-store-empty', [[b'sort', b'nolist', b'store', K]]), ('sort-store-limit00', [[b'rpush', b'l9', b'3', b'1'], [b'sort', b'l9', b'limit', b'0', b'0', b'store', K]]),
+    ('sinterstore-empty', [[b'sadd', b't9', b'q'], [b'sinterstore', K, b't9', b'nokey']]), ('sdiffstore-empty', [[b'sdiffstore', K, b'nokey']]),
+    ('zinterstore-empty', [[b'zadd', b'z9', b'1', b'm'], [b'zinterstore', K, b'2', b'z9', b'nokey']]), ('zunionstore-empty', [[b'zunionstore', K, b'1', b'nokey']]),
+    ('pfmerge', [[b'pfadd', b'h9', b'x'], [b'pfmerge', K, b'h9']]), ('lmove-onto', [[b'rpush', b'l8', b'e'], [b'lmove', b'l8', K, b'left', b'right']]),
+    ('smove-onto', [[b'sadd', b't9', b'q'], [b'smove', b't9', K, b'q']]), ('ltrim-empty', [[b'ltrim', K, b'5', b'9']]), ('spop', [[b'spop', K]]),
+    ('zremrangebyrank', [[b'zremrangebyrank', K, b'0', b'-1']]), ('msetnx-refused', [[b'set', b'o9', b'1'], [b'msetnx', K, b'x', b'o9', b'y']]),
+    ('hincrby', [[b'hincrby', K, b'n', b'1']]), ('setbit', [[b'setbit', K, b'1', b'1']]), ('getrange', [[b'getrange', K, b'0', b'-1']]),
     ('zunionstore', [[b'zadd', b'z9', b'1', b'm'], [b'zunionstore', K, b'1', b'z9']]), ('brpoplpush', [[b'rpush', b'l8', b'e'], [b'brpoplpush', b'l8', K, b'0']]),
 ]
 # cross-database interference, run from the OTHER database
